@@ -32,3 +32,8 @@ pub open spec fn p2(n: int) -> int {
     else if n == 9 { 512 } else if n == 10 { 1024 } else if n == 11 { 2048 } else if n == 12 { 4096 }
     else if n == 13 { 8192 } else if n == 14 { 16384 } else if n == 15 { 32768 } else { 65536 }
 }
+
+// ---- assumed std behaviour — `==`/`!=` on core::cmp::Ordering is structural equality. In EVERY unit: without it Verus treats
+// an `==`/`!=` on Ordering introduced by a harmless edit as an unknown boolean and reports a failed obligation (a false
+// alarm met with refactoring C16-h2), not an unsupported construct.
+pub assume_specification [<core::cmp::Ordering as PartialEq>::eq] (a: &core::cmp::Ordering, b: &core::cmp::Ordering) -> (r: bool) ensures r == (*a == *b);
